@@ -191,14 +191,6 @@ Example C01_nonvacuous_row :
   /\ apply_mutations tf 7777 fs [SetCell [102%N] [97%N] 1500 [9%N]] = None.
 Proof. exact C01_example. Qed.
 
-Definition ex_tbl : bytes := [112; 47; 116; 97; 98; 108; 101; 115; 47; 116]%N.   (* "p/tables/t" *)
-Definition ex_history : list call :=
-  [ mkCall (BCreateTable [112%N] [116%N] [([102%N], Some (GMaxVersions 1))]) 0 [];
-    mkCall (BMutateRow ex_tbl [114%N] [SetCell [102%N] [113%N] (-1) [1%N]; SetCell [102%N] [97%N] 2000 [2%N]]) 5500 [];
-    mkCall (BReadModifyWrite ex_tbl [114%N] [RAppend [102%N] [113%N] [7%N]]) 9999 [];
-    mkCall (BMutateRow ex_tbl [115%N] [SetCell [103%N] [113%N] 1000 [1%N]]) 9999 [];
-    mkCall (BRunGC ex_tbl) 10000 [] ].
-
 Example C01_nonvacuous_history :
   let s := fst (run [] ex_history) in
   server_ok s
